@@ -144,4 +144,20 @@ def batchIdx (counter batchSize numWorkers rank : Nat) : Nat := counter / batchS
     batch is therefore the worker's local sample number `(b / W) * B + s` -/
 def localCounter (b s batchSize numWorkers : Nat) : Nat := b / numWorkers * batchSize + s
 
+/-! ### KDScheduledTransform._worker_init_fn: total number of batches of the run (the schedule's length) -/
+
+inductive RunLen where
+  | epochs (e datasetLen worldSize : Nat) (dropLast : Bool)
+  | updates (u : Nat)
+  | samples (s : Nat)
+deriving Repr, DecidableEq
+
+/-- `n_batches` as computed in `_worker_init_fn` -/
+def nBatches (B : Nat) : RunLen → Nat
+  | .epochs e n W dl =>
+    let n' := n / W
+    e * (if dl then n' / B else (n' + B - 1) / B)
+  | .updates u => u
+  | .samples s => if s % B = 0 then s / B else s / B + 1
+
 end KDVerif.Strength
